@@ -27,6 +27,8 @@ func runC10(p *Prog, r *Report) {
 	r.Floor("C10.1/cond", "e4c.cond_waits", 4)
 	c10Anchored(p, r)
 	pipeIDPairing(p, r, "C10.7/id-pairing")
+	r.Describe("C10.10/E3b", "no registration that Close tears down (endpoint lists, timers, the attached flag of a pipe, running flags) is conditional on a closed/closing test made in an earlier critical section: such a registration can slip past Close and outlive the socket")
+	e3bObligations(p, r, "C10.10/E3b", nil)
 	r.Describe("C10.9/closed-means-ErrClosed", "every error-returning method of a protocol socket/context returns ErrClosed on the branch of its own closed flag and on the select arm of its own close channel")
 	closedMeansErrClosed(p, r, "C10.9/closed-means-ErrClosed")
 	r.Floor("C10.9/closed-means-ErrClosed", "c10.closed_paths", 70)
@@ -323,10 +325,23 @@ func closedMeansErrClosed(p *Prog, r *Report, R string) {
 			if !ok {
 				continue
 			}
-			// (a) closed flag of the receiver (or of its socket)
+			// (a) closed flag of the receiver (or of its socket); `a.closed || b.closed`
+			// enters the block by several edges, all of them closed tests
 			if d := Desc(iff.Cond); d == "recv.closed" || d == "recv.s.closed" {
-				if len(b.Succs[0].Preds) == 1 {
-					check(b.Succs[0], b, "closed-flag("+d+")@"+strings.Join(p.GuardStrings(iff), "&&"), iff)
+				t := b.Succs[0]
+				all := true
+				for _, pb := range t.Preds {
+					pif, ok := pb.Instrs[len(pb.Instrs)-1].(*ssa.If)
+					if !ok || pb.Succs[0] != t {
+						all = false
+						break
+					}
+					if pd := Desc(pif.Cond); pd != "recv.closed" && pd != "recv.s.closed" {
+						all = false
+					}
+				}
+				if all && t.Preds[0] == b {
+					check(t, b, "closed-flag("+d+")@"+strings.Join(p.GuardStrings(iff), "&&"), iff)
 				}
 			}
 			// (b) select arm on an own close channel
